@@ -20,7 +20,7 @@ RAW = {"script", "style"}
 
 
 def vis(kids):
-    return [k for k in kids if k[0] not in ("M", "D")]
+    return [k for k in kids if k[0] not in ("M", "D", "ME", "ML", "DI", "HC")]
 
 
 def is_tag(k):
@@ -115,7 +115,7 @@ def ref_render_list(kids, indent=0, eol="\n"):
 # ------------------------------------------------------------------ R4
 def concat(k, parent=None):
     """Open tags, content, close tags with nothing else."""
-    if k[0] in ("M", "D"):
+    if k[0] in ("M", "D", "ME", "ML", "DI", "HC"):
         return ""
     if not is_tag(k):
         return leaf(k, parent)
